@@ -137,6 +137,19 @@ func (e *StorageEngine) broadcastObject(ctx context.Context, obj *object.Object,
 		zap.Stringer("associated", obj.AssociatedObject()),
 		zap.Int("shard_count", len(allShards)))
 
+	if obj.Type() == object.TypeTombstone {
+		// LOCK may be known to some shards only (e.g. the others were not
+		// writable when it was broadcast). Shards without it would accept the
+		// tombstone and mark its target as garbage, rollback below is unable
+		// to undo this, so refuse in advance.
+		target := oid.NewAddress(addr.Container(), obj.AssociatedObject())
+		for _, sh := range allShards {
+			if locked, err := sh.IsLocked(target); err == nil && locked {
+				return fmt.Errorf("failed to broadcast %s object to any shard, last error: %w", obj.Type(), apistatus.ErrObjectLocked)
+			}
+		}
+	}
+
 	for _, sh := range allShards {
 		err := e.putToShard(sh, addr, obj, objBin)
 		if err == nil || errors.Is(err, errExists) {
